@@ -141,6 +141,11 @@ TIES = {
     # property C05 itself, about the translated writer and reader coupled as the wire couples them (no model in the statement)
     "c05_source": {"sources": ["pyjelly/serialize/lookup.py", "pyjelly/parse/lookup.py"], "unit": "lookup_enc", "gen": "LookupEncGen", "tie": "C05Source",
                    "needs": ["lookup_enc", "lookup_dec"], "props": ["C05"], "theorems": ["C05_source_mirror_all_histories"]},
+    # parts of C08 / C13 / C18 stated directly about the translated source
+    "source_props": {"sources": ["pyjelly/parse/ioutils.py", "pyjelly/options.py", "pyjelly/serialize/encode.py"], "unit": "hint", "gen": "HintGen",
+                     "tie": "SourceProps", "needs": [], "needs_gen": ["hint", "options", "lookup_enc", "encode"], "props": ["C08", "C13", "C18"],
+                     "theorems": ["C08_source_truth_table", "C13_source_preset_bounds", "C13_source_declared_version", "C13_source_type_pairs",
+                                  "C18_source_statement_bound"]},
 }
 
 
@@ -163,8 +168,8 @@ def _one_tie(unit: str, t: dict, repo: str) -> dict:
     os.mkdir(f"{tmpd}/tie")
     q = f"-Q model PJ.Model -Q proofs PJ.Proofs -Q tie PJ.Tie -Q {tmpd}/tie PJ.Tie -Q {tmpd}/gen PJ.Gen"
     try:
-        chain = [(n, TIES[n]) for n in t["needs"]] + [(unit, t)]
-        for u, tu in chain:
+        chain = [(n, TIES[n], False) for n in t.get("needs_gen", [])] + [(n, TIES[n], True) for n in t["needs"]] + [(unit, t, True)]
+        for u, tu, with_tie in chain:
             gen_file = Path(tmpd) / "gen" / f"{tu['gen']}.v"
             cmd = f"cd {VERIF}/coq && "
             if not gen_file.exists():
@@ -181,10 +186,13 @@ def _one_tie(unit: str, t: dict, repo: str) -> dict:
                 cmd += f"timeout 600 coqc {q} {tmpd}/gen/{tu['gen']}.v && "
             if u == unit:
                 res["lines"] = len(gen_file.read_text().splitlines())
-            cmd += f"timeout 600 coqc {q} -o {tmpd}/tie/{tu['tie']}.vo tie/{tu['tie']}.v"
+            if with_tie:
+                cmd += f"timeout 600 coqc {q} -o {tmpd}/tie/{tu['tie']}.vo tie/{tu['tie']}.v"
+            else:
+                cmd += "true"
             rc, out = sh(cmd, timeout=1300)
             closed = out.count("Closed under the global context")
-            if rc != 0 or closed != len(tu["theorems"]) or "Axioms:" in out:
+            if rc != 0 or (with_tie and closed != len(tu["theorems"])) or "Axioms:" in out:
                 res["broken"] = (f"source tie {unit}: coq/tie/{tu['tie']}.v no longer proves {tu['theorems']} against the translation of "
                                  f"{', '.join(tu['sources'])} (the source and the model are not shown to be in lock step): {out[-500:]}")
                 return res
